@@ -22,9 +22,16 @@ TECHNIQUE = 'static: dominance of assert_same_type_id over table access, decisio
 RULE_TEXT = "one obligation per id-taking method, insertion site, guard construction site, unchecked downcast site, key wiring site"
 
 
-def run(ctx, report):
+def _run_rules(ctx, report):
     for config in ctx.configs:
         facts = ctx.facts(config)
         report.guard("C09.ASSERT", W.assert_rules, ctx, report, "C09.ASSERT", facts, config)
         report.guard("C09.INSERT", W.insert_rules, ctx, report, "C09.INSERT", facts, config)
         report.guard("C09.GUARD", W.guard_rules, ctx, report, "C09.GUARD", facts, config)
+
+
+def run(ctx, report):
+    _run_rules(ctx, report)
+    from .. import shared as _S
+    for config in ctx.configs:
+        report.guard("C09.ENCAPSULATED", _S.encapsulated, ctx, report, "C09.ENCAPSULATED", ctx.facts(config), config, "C09")
